@@ -114,6 +114,41 @@ class Case:
                 whole = t == "del" and off == 0 and ln == self.size(i) and x["kind"] == "c"
                 self.mods.append((i, t, off, ln, None if t == "del" else patch, whole and rnd.random() < 0.4))
 
+    # ---- explicit form (corpus entries do not depend on the generator)
+    def to_json(self):
+        def enc(v):
+            if isinstance(v, bytes):
+                return {"hex": v.hex()}
+            if isinstance(v, (list, tuple)):
+                return [enc(x) for x in v]
+            if isinstance(v, (set, frozenset)):
+                return {"set": sorted(v)}
+            if isinstance(v, dict):
+                return {"dict": [[enc(k), enc(x)] for k, x in v.items()]}
+            return v
+        return {k: enc(getattr(self, k)) for k in ("blocks", "nfun", "extra_start", "end_labels", "aux", "align", "cfi", "entry", "mods")}
+
+    @classmethod
+    def from_json(cls, d):
+        def dec(v):
+            if isinstance(v, dict) and set(v) == {"hex"}:
+                return bytes.fromhex(v["hex"])
+            if isinstance(v, dict) and set(v) == {"set"}:
+                return set(v["set"])
+            if isinstance(v, dict) and set(v) == {"dict"}:
+                return {(tuple(dec(k)) if isinstance(k, list) else dec(k)): dec(x) for k, x in v["dict"]}
+            if isinstance(v, list):
+                return [dec(x) for x in v]
+            return v
+        c = cls.__new__(cls)
+        for k, v in d.items():
+            setattr(c, k, dec(v))
+        c.blocks = [{kk: ([tuple(i) for i in vv] if kk == "ins" else vv) for kk, vv in b.items()} for b in c.blocks]
+        c.mods = [tuple(m) for m in c.mods]
+        c.aux = [tuple(a) for a in c.aux]
+        c.cfi = {i: {d_: [tuple(x) for x in ds] for d_, ds in dm.items()} for i, dm in c.cfi.items()}
+        return c
+
     def size(self, i):
         x = self.blocks[i]
         return len(x["data"]) if x["kind"] == "d" else sum(len(ENC[k]) for k, _ in x["ins"])
@@ -421,7 +456,7 @@ def dump_patch(code, ids):
 
 
 # ------------------------------------------------------------------------------------------- running the implementation
-def run_impl(case, want_model_line=True):
+def run_impl(case, want_model_line=True, observe=None):
     """Runs ctx.apply() for the case.  Returns dict(line=model input line or None, dump=canonical dump or None,
     error=exception class or None, built=Built)."""
     import gtirb_rewriting
@@ -462,11 +497,19 @@ def run_impl(case, want_model_line=True):
             if want_model_line:
                 rec["state"] = dump_state(module, ids, fids, order)
             rec["blocks_in_order"] = sorted(module.byte_blocks, key=lambda b: b.address or 0)
+            rec["ival_of_block"] = [g.byte_interval for g in B.gbs]
             yield cache
         rec["final"] = canonical_dump(module, ids, fids)
+        if observe is not None:
+            rec["obs"] = observe(module, B, rec)
 
     def insert_wrapper(cache, block, offset, replacement_length, code):
-        rec["codes"].append((bytes(code.text_section.data), code))
+        labels = {}
+        for sy in code.symbols:
+            r_ = sy.referent
+            if any(r_ is pb for pb in code.text_section.blocks):
+                labels[sy.name] = r_.offset + (r_.size if sy.at_end else 0)
+        rec["codes"].append((bytes(code.text_section.data), code, labels))
         if want_model_line:
             rec["patches"].append(dump_patch(code, ids))
         return orig_insert(cache, block, offset, replacement_length, code)
@@ -518,4 +561,4 @@ def run_impl(case, want_model_line=True):
             work.append(" ".join(toks))
         line = rec["state"] + f" {len(work)} " + " ".join(work) if ok else None
     return dict(line=line, dump=rec["final"] if err is None else None, error=err, built=B, ids=ids, fids=fids, mod_code=mod_code,
-                mid_dump=rec["final"])
+                mid_dump=rec["final"], obs=rec.get("obs"), rec=rec)
